@@ -332,8 +332,9 @@ func runBufBody(mode, tier string, shard, shards int, rep *SeqReport, lastOp, cu
 				}
 			}
 			for _, z := range zs {
-				for _, rl := range []int{70000, 1} {
-					if rl == 1 && !thorough && (z+y)%3 != 0 {
+				for _, rl := range []int{70000, 1, 1000, 20} {
+					// short reads: 1 byte, and lengths whose copied part can cross the ring end
+					if rl != 70000 && !thorough && (z+y+rl)%3 != 0 {
 						continue
 					}
 					s := mk(nil)
@@ -410,6 +411,65 @@ func runBufBody(mode, tier string, shard, shards int, rep *SeqReport, lastOp, cu
 				}
 			}
 		}
+		// deep wrap: head in the middle of the ring, a third of it wrapped, then growth
+		// (a +25% step gains less room than the wrapped part occupies)
+		for _, frac := range []int{3, 5} {
+			for _, big := range []int{g / 8, g/4 + 3, 60000} {
+				if big >= 65536 {
+					big = 65535
+				}
+				if big < 1 {
+					big = 1
+				}
+				s := mk(nil)
+				var ops []string
+				chunk := g / 16
+				if chunk > 60000 {
+					chunk = 60000
+				}
+				if chunk < 8 {
+					chunk = 8
+				}
+				cnt := 0
+				for used := 0; used+chunk+2 < g-4; used += chunk + 2 {
+					ops = append(ops, "W"+strconv.Itoa(chunk))
+					cnt++
+				}
+				// free the first frac/8 of the ring, then wrap new data into it
+				rd := cnt * frac / 8
+				for i := 0; i < rd; i++ {
+					ops = append(ops, "R70000")
+				}
+				for i := 0; i < rd-1; i++ {
+					ops = append(ops, "W"+strconv.Itoa(chunk))
+				}
+				// now force growth while wrapped
+				for k := 0; k < 6; k++ {
+					ops = append(ops, "W"+strconv.Itoa(big))
+				}
+				for i := 0; i < 2*cnt+10; i++ {
+					ops = append(ops, "R70000")
+				}
+				hist("growth-deep-wrap", s, ops)
+				n++
+			}
+		}
+		// a size limit slightly above the ring, raised by a small amount while the ring is wrapped
+		if g <= 8192 {
+			s := mk(nil)
+			ops := []string{"LS" + strconv.Itoa(g-1)}
+			chunk := g / 8
+			for used := 0; used+chunk+2 <= g-1; used += chunk + 2 {
+				ops = append(ops, "W"+strconv.Itoa(chunk))
+			}
+			ops = append(ops, "R70000", "R70000", "R70000", "W"+strconv.Itoa(chunk), "W"+strconv.Itoa(chunk),
+				"LS"+strconv.Itoa(g+chunk/2), "W"+strconv.Itoa(chunk/4), "LS"+strconv.Itoa(g+3*chunk), "W"+strconv.Itoa(chunk), "W"+strconv.Itoa(chunk))
+			for i := 0; i < 24; i++ {
+				ops = append(ops, "R70000")
+			}
+			hist("growth-limit-raised", s, ops)
+			n++
+		}
 		rep.family("growth", n)
 		if gi == 3 {
 			rep.sample(fmt.Sprintf("growth: fill ring to %d, keep a marker, read the rest, write %d-byte packets until the ring has grown, read everything back", g, g+1))
@@ -417,7 +477,7 @@ func runBufBody(mode, tier string, shard, shards int, rep *SeqReport, lastOp, cu
 	}
 
 	// (c) BFS over a small alphabet from base states (near-wrap, just-grown, limited)
-	alpha := []string{"W0", "W1", "W2040", "W2044", "W2045", "R0", "R1", "R70000", "LC0", "LC2", "LS0", "LS2049", "LS4100", "Close"}
+	alpha := []string{"W0", "W1", "W2040", "W2044", "W2045", "R0", "R1", "R1000", "R70000", "LC0", "LC2", "LS0", "LS2049", "LS4100", "Close"}
 	depth := 5
 	if thorough {
 		depth = 6
